@@ -5,6 +5,7 @@ A flood fill is assembled per chip: chips in the per-attempt miss set ignore
 the whole fill, the others load the reassembled image onto the selected cores
 at the end packet.  The oracle works on (a) every flood-fill datagram the
 machine received, (b) the core table before/after, (c) the outcome."""
+import contextlib
 import os
 import shutil
 import struct
@@ -41,7 +42,7 @@ ASSUMPTIONS = [
     "cores not requested may only change from wait to run, through the "
     "start signal addressed to their application id",
 ]
-FLOORS = {"fill_identifier_advanced": 500, "default_left_out": 400, "filename_and_targets_form": 100, "load_checked": 300, "fill_wellformed": 500, "retry_narrowed": 100,
+FLOORS = {"options_through_context": 500, "wait_false_through_context": 150, "fill_identifier_advanced": 500, "default_left_out": 400, "filename_and_targets_form": 100, "load_checked": 300, "fill_wellformed": 500, "retry_narrowed": 100,
           "loading_error_exact": 40, "returned_all_loaded": 150,
           "count_mode": 80, "percore_mode": 80}
 ANCHORS = [("rig.machine_control.machine_controller",
@@ -294,12 +295,35 @@ def run_(case, ctx):
                     if kw[k_] == dflt and type(kw[k_]) is type(dflt):
                         del kw[k_]
                         ctx.hit("default_left_out")
-            if len(amap) == 1 and (case["n_tries"] + len(images[0])) % 3 == 0:
-                # the other documented call form: file name, then targets
-                ctx.hit("filename_and_targets_form")
-                mc.load_application(names[0], amap[names[0]], **kw)
+            # the contextual options (application id, tries, wait) may also
+            # reach the call through an enclosing block or the controller's
+            # current context - "asked to" whichever way
+            sel = (len(images[0]) // 4 * 7 + case["n_tries"] * 3 +
+                   sum(len(cs) for b in case["bins"]
+                       for _, cs in b["targets"])) % 5
+            outer = {}
+            if sel in (1, 2, 3):
+                for k_ in [("wait",), ("wait", "app_id"),
+                           ("n_tries", "wait", "app_id")][sel - 1]:
+                    if k_ in kw:
+                        outer[k_] = kw.pop(k_)
+            if outer:
+                ctx.hit("options_through_context")
+                if "wait" in outer and outer["wait"] is False:
+                    ctx.hit("wait_false_through_context")
+            if outer and sel == 3:
+                mc.update_current_context(**outer)
+                block = contextlib.nullcontext()
             else:
-                mc.load_application(amap, **kw)
+                block = mc(**outer) if outer else contextlib.nullcontext()
+            with block:
+                if len(amap) == 1 and \
+                        (case["n_tries"] + len(images[0])) % 3 == 0:
+                    # the other documented call form: file name, then targets
+                    ctx.hit("filename_and_targets_form")
+                    mc.load_application(names[0], amap[names[0]], **kw)
+                else:
+                    mc.load_application(amap, **kw)
             outcome, err = "returned", None
         except r.mcm.SpiNNakerLoadingError as e:
             outcome, err = "loading-error", e
